@@ -47,11 +47,13 @@ def _data(slots, P, order=None, mirror=False, tref=None, sort=True, dirty=False)
     return RVData(Time(tt, format="mjd", scale="tcb"), rv, err, **kw)
 
 
-def _sample(P, unit="day"):
+def _sample(P, unit="day", own_epoch=None):
     import astropy.units as u
+    from astropy.time import Time
     from thejoker import JokerSamples
 
-    s = JokerSamples()
+    # own_epoch: the sample carries its own reference epoch (that of the orbit - the full data set, another season, ...)
+    s = JokerSamples() if own_epoch is None else JokerSamples(t_ref=Time(own_epoch, format="mjd", scale="tcb"))
     if unit == "day":
         s["P"] = [P] * u.day
     else:
@@ -140,6 +142,26 @@ def check_diag(case, part):
         if abs(gm - want_gap) > 1e-7:
             part.violation(dict(case, mirror=True), "max_phase_gap changes under time reversal of the observing pattern",
                            expected=want_gap, observed=gm)
+    # the diagnostics describe the time sampling of the DATA for a period: a sample that carries an own reference epoch (not a
+    # multiple of P / n_bins away from the data's) must give the same values
+    samp2 = _sample(P, case.get("punit", "day"), own_epoch=T0 - 3.0 - 0.377 * P)
+    d0 = _data(slots, P, tref=tref)
+    try:
+        g2 = float(np.squeeze(sa.max_phase_gap(samp2, d0)))
+        s2 = float(np.squeeze(sa.periods_spanned(samp2, d0)))
+        c2v = {nb: float(np.squeeze(sa.phase_coverage(samp2, d0, n_bins=nb))) for nb in case["bins"]}
+    except Exception as e:
+        part.violation(dict(case, sample_epoch=True), f"diagnostic raised for a sample carrying its own reference epoch: {type(e).__name__}: {e}")
+        return
+    if abs(g2 - want_gap) > 1e-7 or abs(s2 - want_span) > 1e-7 * max(1, want_span):
+        part.violation(dict(case, sample_epoch=True), "max_phase_gap / periods_spanned depend on the sample's own reference epoch", expected=(want_gap, want_span), observed=(g2, s2))
+        return
+    for nb in case["bins"]:
+        opts = ref_coverage_options(phases, nb, ambiguous)
+        if all(abs(c2v[nb] - w) > 1e-12 for w in opts):
+            part.violation(dict(case, sample_epoch=True, n_bins=nb), "phase_coverage depends on the sample's own reference epoch (bins are counted from the data's "
+                           "reference epoch)", expected=sorted(opts), observed=c2v[nb])
+            return
     # non-trivial: the wrap-around arc is the strictly largest one
     ph = sorted(set(phases))
     wrap = ph[0] + 1 - ph[-1]
@@ -247,7 +269,9 @@ def main():
     chk.bounds = {"diag_cases": len(cases), "map_tables": len(maps)}
     chk.merge(core.parallel(shard, core.interleave(cases, core.NPROC)))
     chk.merge(core.parallel(shard, core.interleave(maps, core.NPROC)))
-    chk.assumptions += ["astropy Time arithmetic; an observation exactly one whole cycle after the reference may land in the first or last bin (rounding)"]
+    chk.assumptions += ["astropy Time arithmetic; an observation exactly one whole cycle after the reference may land in the first or last bin (rounding)",
+                        "phase bins are counted from the DATA's reference epoch (the documented default of RVData.phase); a reference epoch carried by the sample "
+                        "plays no role in a diagnostic of the data's time sampling"]
     return chk.finish(run_case)
 
 
